@@ -345,7 +345,7 @@ def verify(contract, timeout_ms=20000, case_filter=None, mutate=None, verbose=Fa
                     try:
                         r.witness = contract.witness(model, case, getattr(p, 'aux', None) or aux_box.get('aux'))
                     except Exception as e:
-                        r.witness = {'error': 'witness extraction failed: %s' % e}
+                        r.witness = {'error': 'witness extraction failed: %s\n%s' % (e, traceback.format_exc()[-1200:])}
                     r.model_text = model_text(model)
                 rep.results.append(r)
                 if verbose:
